@@ -98,6 +98,7 @@ func Load(cfg Config) (*Program, error) {
 		stages := []func([]*packages.Package) *norm.Result{
 			func(ps []*packages.Package) *norm.Result { return norm.Devirt(ps, Module) },
 			func(ps []*packages.Package) *norm.Result { return norm.Plan(ps, norm.Known(), Module) },
+			func(ps []*packages.Package) *norm.Result { return norm.Lookup(ps, Module) },
 			func(ps []*packages.Package) *norm.Result { return norm.Unroll(ps, Module) },
 			func(ps []*packages.Package) *norm.Result { return norm.Scalarise(ps, Module) },
 		}
